@@ -34,7 +34,72 @@ def shards(tier, seed):
     Sc, Arr, St = xt.Sc, xt.Arr, xt.St
     out.append(("layout-twins", [Arr(Sc("f64"), (3, 2), (1, 0)), Arr(Sc("i16"), (2, 3, 4), (1, 2, 0)), Arr(Sc("f32"), (None, 2), (1, 0)), Arr(Sc("i64"), (None, None), (1, 0)),
                                  St(Sc("i8"), Arr(Sc("f64"), (2, 3), (1, 0)), Sc("i64")), Arr(universe.S_S, (2, 3), (1, 0)), Arr(Sc("u8"), (4, 2, 3), (2, 0, 1))]))
+    # large objects copied across contexts (whatever is staged through the host in pieces must add up to the object)
+    out += [("big-xctx", k) for k in range(4)]
     return out[seed % len(out):] + out[: seed % len(out)]
+
+
+BIG_COUNTS = list(range(8184, 8200)) + list(range(16376, 16392)) + [24571, 24575, 24577, 32763, 32769]
+
+
+def run_big(part, res, seed, only=None):
+    """objects of 64 KiB to 256 KiB (every item count of two windows around 64 KiB and 128 KiB, some beyond) copy-constructed
+    from an object of ANOTHER context into a hole with live neighbours flush on both sides, both buffer kinds; the source is not
+    the last thing in its storage.  Oracle: the object lands in the hole, no byte outside it changes, the copy equals the source."""
+    A = xt.build(xt.Arr(xt.Sc("f64"), (None,), (0,)))
+    S = xt.build(xt.St(xt.Sc("i64"), xt.Arr(xt.Sc("f64"), (None,), (0,)), xt.Sc("i8")))
+    for ci, n in enumerate(BIG_COUNTS):
+        if ci % 4 != part:
+            continue
+        for destkind in ("np", "ba"):
+            for root in ("array", "struct"):
+                if only is not None and (n, destkind, root) != only:
+                    continue
+                res.cases += 1
+                res.transitions += 1
+                res.events["construct-big"] += 1
+                f = dict(root=root, form="xobj-ctx", place="hole:" + destkind, big=True)
+                cid = dict(part="big-xctx", count=n, dest=destkind, root=root)
+                try:
+                    sb = place.traced("np", 0, context=place.ctx(1))
+                    data = np.arange(n, dtype="f8") + 0.5
+                    src = A(data, _buffer=sb) if root == "array" else S(f0=7, f1=data, f2=3, _buffer=sb)
+                    sb.update_from_buffer(sb.allocate(64), place.poison(64, seed + 7))
+                    size = int(src._size)
+                    pre, post = 13, 37
+                    db = place.traced(destkind, pre + size + post, default_alignment=1)
+                    a, h, c = db.allocate(pre, align=False), db.allocate(size, align=False), db.allocate(post, align=False)
+                    db.update_from_buffer(a, place.poison(pre, seed + 1))
+                    db.update_from_buffer(c, place.poison(post, seed + 2))
+                    db.update_from_buffer(h, place.poison(size, seed + 3))
+                    db.free(h, size)
+                    before = place.whole(db)
+                except Exception as e:
+                    res.skipped["prepare-big:" + common.exc_failure(e)] += 1
+                    continue
+                try:
+                    obj = type(src)(src, _buffer=db, _offset="packed")
+                except Exception as e:
+                    res.violations.append(common.violation("C03.construct", "raises:" + common.exc_failure(e), f, cid, repr(e)[:500]))
+                    continue
+                after = place.whole(db)
+                off = int(obj._offset)
+                res.oracles["confinement"] += 1
+                bad = outside(before, after, [(off, off + size)]) if len(after) == len(before) else ["capacity changed"]
+                got = (obj if root == "array" else obj.f1).to_nparray()
+                if off != h or int(obj._size) != size:
+                    res.violations.append(common.violation("C03.size-equals-extent", "reported-size-differs", f, cid, "landed at %d size %d, hole [%d,%d)" % (off, int(obj._size), h, h + size)))
+                elif bad:
+                    res.outcomes["bad:confinement"] += 1
+                    res.violations.append(common.violation("C03.confinement", "construct-writes-outside", f, cid, "object occupies [%d,%d); bytes %r outside it changed" % (off, off + size, bad[:8])))
+                elif not np.array_equal(got, data):
+                    res.violations.append(common.violation("C03.confinement", "copy-differs", f, cid, "first differing item %d" % int(np.nonzero(got != data)[0][0])))
+                else:
+                    res.outcomes["ok:construct-big"] += 1
+                    res.states += 1
+    res.nontrivial = res.states
+    res.max_depth = 1
+    return res
 
 
 def allowed_regions(log):
@@ -228,6 +293,8 @@ def layout_twin_prelude(t):
 
 def run_shard(shard, tier, seed):
     res = common.ShardResult()
+    if shard[0] == "big-xctx":
+        return run_big(shard[1], res, seed)
     if shard[0] == "layout-twins":
         for t in shard[1]:
             layout_twin_prelude(t)
@@ -263,6 +330,8 @@ def run_shard(shard, tier, seed):
 
 
 def replay(case):
+    if case.get("part") == "big-xctx":
+        return run_big(BIG_COUNTS.index(case["count"]) % 4, common.ShardResult(), 0, only=(case["count"], case["dest"], case["root"])).violations
     if "ev_idx" in case:
         return hist.replay_case(case, OPTS, judge_hist)
     t = xt.retuple(case["type"])
